@@ -176,14 +176,18 @@ struct World {
     rt::obs("stop%d.end", i);
   }
   void run_all() { while (ctx.run_one()) {} }
-  // at quiescence: every other thread has finished and the scheduler queue is empty
+  // at quiescence: every other thread has finished and the scheduler queue is empty.
+  // The probe is a try_lock; the monitors run BEFORE the probe's own unlock (which would hand the
+  // lock to a waiter that the mutex had forgotten).
   void quiesce() {
-    bool free_ = try_cs(9);
+    bool free_ = m.try_lock();
+    if (free_) enter("t", 9); else rt::obs("t9.fail");
     if (!free_ && in_cs == 0) rt::fail("lock leaked: mutex locked at quiescence but nobody holds it");
     for (int i = 0; i < NW; ++i)
       if (started[i] && completions[i] == 0)
         rt::fail(stop_asked[i] ? "lost waiter: a cancelled async_lock never completed"
                                : "lost waiter: a started, uncancelled async_lock never completed");
+    if (free_) leave_and_unlock("t", 9);
   }
   template <typename F>
   int spawn(F f) {
@@ -323,6 +327,18 @@ SCENARIO(v2_cancel_first) {
   int t2 = w.spawn([&] { w.stop(0); });
   w.release(0);
   w.run_all();
+  rt::join(t2);
+  w.quiesce();
+}
+
+// T0 holds, waiter 0 queues, T0 unlocks (hand-off, inline scheduler) while T2 probes with try_lock
+SCENARIO(v2_handoff_try) {
+  W2 w(false);
+  w.try_hold(0);
+  int t1 = w.spawn([&] { w.lock(0); });
+  int t2 = w.spawn([&] { w.try_cs(2); });
+  rt::join(t1);
+  w.release(0);
   rt::join(t2);
   w.quiesce();
 }
